@@ -17,6 +17,7 @@
                      price (M), volume (M_v) or unit (1: oscillators, ratios already formed)
     band …         — centre ± k·sqrt(variance)
     quot …         — quotient of two accumulated quantities behind an exact `== 0` guard
+    sqrtQuot …     — num / sqrt(den), compared on the square (no rational value: `VExp.value` is 0 for it)
     exact q        — copied / selected value (up to the rounding of the candle source formula)
 -/
 import YataModel.MA
@@ -39,6 +40,8 @@ inductive VExp where
   /-- `num/den`; `guards`: quantities the code compares with 0 exactly before dividing (besides `den`);
       `alt`: what the code returns when that guard fires -/
   | quot (num den κn κd : Rat) (sc : Scale) (guards : List Rat) (alt : Option Rat)
+  /-- `num / sqrt(den)` (TrendStrengthIndex): compared on the square, allowance `κn·M` on `num`, `κd·M²` on `den` -/
+  | sqrtQuot (num den κn κd : Rat)
   deriving Repr, Inhabited
 
 def VExp.price (q κ : Rat) : VExp := .approx q κ .price
@@ -50,6 +53,7 @@ def VExp.vol (q κ : Rat) : VExp := .approx q κ .vol
 def VExp.value : VExp → Rat
   | .exact q => q | .approx q _ _ => q | .band m _ _ _ _ => m
   | .quot n d _ _ _ g alt => if d == 0 || g.any (· == 0) then alt.getD 0 else n / d
+  | .sqrtQuot _ _ _ _ => 0
 
 abbrev M := MAInst Rat
 abbrev half : Rat := 1 / 2
